@@ -198,6 +198,24 @@ type runner struct {
 	dead    time.Time
 	skipped int64 // cases not run because the budget expired
 	notes   []string
+	// confirmed crashes/hangs per space: once a space has maxAbnormal of them the rest of it is skipped (the property is
+	// already violated there; pinning hundreds of hanging cases one by one would take hours)
+	abnormal map[int]int
+}
+
+const maxAbnormal = 5
+
+func (r *runner) saturated(space int) bool {
+	r.mu.Lock()
+	defer r.mu.Unlock()
+	return r.abnormal[space] >= maxAbnormal
+}
+
+func (r *runner) skipRest(space int, n int64) {
+	r.mu.Lock()
+	r.skipped += n
+	r.mu.Unlock()
+	r.note(fmt.Sprintf("space %s: %d crashes/hangs confirmed, %d further cases of it not run", r.spaces[space].Name, maxAbnormal, n))
 }
 
 func (r *runner) next(serialOnly bool) (chunk, bool) {
@@ -331,6 +349,10 @@ func (r *runner) triage(c chunk) {
 	}
 	pos := c.lo
 	for pos < c.hi {
+		if r.saturated(c.space) {
+			r.skipRest(c.space, c.hi-pos)
+			return
+		}
 		w, err := startWorker(r.exe, r.check.ID, r.tier)
 		if err != nil {
 			r.note("cannot start worker: " + err.Error())
@@ -382,6 +404,12 @@ func (r *runner) triage(c chunk) {
 			}
 			res.Evaluated = 1
 			r.merge(&res)
+			r.mu.Lock()
+			if r.abnormal == nil {
+				r.abnormal = map[int]int{}
+			}
+			r.abnormal[c.space]++
+			r.mu.Unlock()
 		} else {
 			r.note(fmt.Sprintf("unconfirmed abnormal exit at %s[%d] (reproduced %d/3): not reported", sp.Name, cur, same))
 			var res Result
@@ -479,6 +507,10 @@ func Explore(c *Check, tier string, seed int64) (total *Result, exhaustive bool,
 					return
 				}
 				sp := r.spaces[ch.space]
+				if r.saturated(ch.space) {
+					r.skipRest(ch.space, ch.hi-ch.lo)
+					continue
+				}
 				if w != nil && sp.RecycleEvery > 0 && w.chunks >= sp.RecycleEvery {
 					w.quit()
 					w = nil
